@@ -234,6 +234,70 @@ def r6_retarget_guard(ctx):
     r2_retarget_guard(ctx)
 
 
+def r7_guards_and_list_columns(ctx):
+    """(a) add_fields infers a column's type from the first value: the guard that all values have that type must quantify over ALL values;
+    (b) list-valued columns (List[int] / List[bool] / List[float]) become ragged arrays for every input that is not one already - including the empty
+    list of a 0-row table (extra conditions on the conversion send some inputs, e.g. [], down the single-row path)."""
+    ix = ctx.index
+    f = ix.func(BD, "_assert_all_same_type")
+    vals = f.params[0]
+    asserts = [a for a in body_walk(f.node) if isinstance(a, ast.Assert)]
+    ctx.need(len(asserts) >= 1, "_assert_all_same_type: no assertion")
+    hit = 0
+    for a in asserts:
+        t = a.test
+        if isinstance(t, ast.Call) and u(t.func) in ("all", "any") and t.args and isinstance(t.args[0], ast.GeneratorExp):
+            ge = t.args[0]
+            hit += 1
+            ok = u(t.func) == "all" and len(ge.generators) == 1 and u(ge.generators[0].iter) == vals and not ge.generators[0].ifs and \
+                sym.canon(ge.elt, local_env(f.node)) == sym.canon(sym.parse_expr(f"isinstance({u(ge.generators[0].target)}, type({vals}[0]))"))
+            ctx.ob(f.where, "the values of a new column all have the type the column is declared with (checked for EVERY value)", ok, u(t), key="C19-R7|all-same-type")
+    ctx.need(hit == 1, "_assert_all_same_type: quantified type check not found")
+    users = [c for c in func_calls(ix.func(BD, "_extract_field_types").node) if u(c.func) == "_assert_all_same_type"]
+    ctx.ob(f.where, "the guard is applied when field types are inferred for add_fields", len(users) >= 1, "", key="C19-R7|guard-used")
+    cf, tests = _conversion_branches(ctx)
+    lst = [(t, b) for t, b in tests if t is not None and "List[int]" in u(t) and "List[bool]" in u(t)]
+    ctx.need(len(lst) == 1, "_implicit_format_conversion: branch for list-valued columns not found")
+    body = lst[0][1]
+    calls = []
+
+    def walk(stmts, guards):
+        for st in stmts:
+            if isinstance(st, ast.If):
+                walk(st.body, guards + [(st.test, True)])
+                walk(st.orelse, guards + [(st.test, False)])
+            elif isinstance(st, ast.Try):
+                walk(st.body, guards)
+                for h in st.handlers:
+                    walk(h.body, guards + [("except", True)])
+                walk(st.orelse, guards)
+            else:
+                for c in ast.walk(st):
+                    if isinstance(c, ast.Call) and u(c.func) == "RaggedArray":
+                        calls.append((c, list(guards)))
+    walk(body, [])
+    ctx.need(len(calls) >= 1, "list-valued columns: no conversion to RaggedArray found")
+    unknown = []
+    for c, guards in calls:
+        extra = []
+        for g, pol in guards:
+            if g == "except":
+                extra.append("except")
+                continue
+            cg = sym.canon(g)
+            if (cg == "isinstance(pre_val, RaggedArray)" and pol is False) or (cg == "not(isinstance(pre_val, RaggedArray))" and pol is True):
+                continue
+            extra.append(("" if pol else "not ") + u(g))
+        ok = not extra
+        if extra and not any("len(" in e or "__len__" in e for e in extra):
+            unknown.append(extra)
+            continue
+        ctx.ob(cf.where, "every input of a list-valued column that is not yet a RaggedArray is converted with RaggedArray(...) (no extra condition: an empty list is the "
+               "column of a 0-row table)", ok, f"{u(c)} under {extra}", key="C19-R7|list-column-conversion")
+    if unknown and not any(v.get("rule") == ctx.current_rule and "list-column-conversion" in str(v.get("key")) for v in ctx.violations):
+        raise Unrecognised(f"{cf.where}: the conversion of list-valued columns is guarded by conditions the checker does not know: {unknown}")
+
+
 RULES = [
     ("C19-R6", r6_retarget_guard),
     ("C19-R1", r1_constructor_exhaustive),
@@ -241,4 +305,5 @@ RULES = [
     ("C19-R3", r3_no_effect_statements),
     ("C19-R4", r4_class_memo_keys),
     ("C19-R5", r5_string_array),
+    ("C19-R7", r7_guards_and_list_columns),
 ]
